@@ -156,6 +156,21 @@ def main(tier, seed):
     t0 = time.time()
     specs = enumerate_specs(tier)
     results = runner.run_pool(__name__, specs, tier, seed)
+    # E3: the output-size arithmetic shared by every window-based op, for symbolic sizes up to 10^6
+    from .. import lemmas
+    extra_lines, extra_viol = [], 0
+    try:
+        lem, _meta = lemmas.conv_size_lemma(tier)
+    except Exception as e:  # noqa: BLE001
+        lem = {"lemma": "conv output size", "error": repr(e), "queries": 0, "both_unsat": 0, "sat_indices": []}
+    if lem.get("sat_indices") or lem.get("translator_mismatches"):
+        extra_viol = 1
+        path = runner.write_replay(PROP, {"sig": "lemma:conv output size", "module": None, "spec": lem},
+                                   {"label": "lemma", "kind": "smt", "detail": str(lem)})
+        extra_lines += ["VIOLATION property=%s replay=%s" % (PROP, path),
+                        "  E3 lemma 'conv output size = floor((L+2p-d(k-1)-1)/s)+1' has a satisfiable negation: %s" % (lem,)]
+    extra_lines.append("E3 lemma conv output size: %s/%s queries unsat in both solvers (z3 %ss, cvc5 %ss)" % (
+        lem.get("both_unsat"), lem.get("queries"), lem.get("z3_s"), lem.get("cvc5_s")))
     return runner.finish(
         PROP, tier, seed, results, t0,
         bounds={"N,C": "<=2", "H,W": "<=4", "kernel": "<=2 quick / <=3 thorough per axis", "stride": "<=2", "padding": "<=1",
@@ -163,5 +178,6 @@ def main(tier, seed):
         assumptions=["floats are reals", "geometry arguments are passed as tuples (the argument-form question belongs to C06)",
                      "pad value symbolic for im2col/extract_windows, 0 for the adjoint and count identities"],
         stubs=["numpy creators inside synapgrad return constant symbolic arrays"],
+        extra_cov={"smt_lemma": lem}, extra_lines=extra_lines, extra_violations=extra_viol,
         rule="one configuration = (N,C,H,W) x kernel x stride x padding x dilation per axis with a non-empty output; "
              "image, column matrix and pad value symbolic")
